@@ -6,12 +6,12 @@ Open Scope Z_scope.
 (* the object an operation may modify *)
 Definition target_of (s : state) (o : op) : option nat :=
   match o with
-  | OpAdd h _ | OpSetProp h _ _ | OpUpdateProps h _ => match lookup s h with Some (oid, _) => Some oid | None => None end
+  | OpAdd h _ | OpSetProp h _ _ | OpUpdateProps h _ _ => match lookup s h with Some (oid, _) => Some oid | None => None end
   | _ => None
   end.
 
 Definition is_mutator (o : op) : bool :=
-  match o with OpAdd _ _ | OpSetProp _ _ _ | OpUpdateProps _ _ => true | _ => false end.
+  match o with OpAdd _ _ | OpSetProp _ _ _ | OpUpdateProps _ _ _ => true | _ => false end.
 
 (* s' extends s: the buffer store and the pool only grow, every object except possibly `tgt` is untouched *)
 Definition ext (s s' : state) (tgt : option nat) : Prop :=
@@ -79,9 +79,9 @@ Proof.
   - cbn [fst]. apply ext_set. eauto.
 Qed.
 
-Lemma h_update_props_ext s oid o cols : ext s (fst (h_update_props s oid o cols)) (Some oid).
+Lemma h_update_props_ext s oid o cols ap : ext s (fst (h_update_props s oid o cols ap)) (Some oid).
 Proof.
-  unfold h_update_props. destruct (prep_props _ _ cols false true); [|apply ext_refl].
+  unfold h_update_props. destruct (prep_props _ _ cols ap true); [|apply ext_refl].
   match goal with |- context [store_cols ?b ?p ?r] => destruct (store_cols_app r b p) as [e He]; destruct (store_cols b p r) as [bs2 ps] end.
   simpl in He. cbn [fst]. apply ext_set. eauto.
 Qed.
@@ -149,6 +149,7 @@ Proof.
   - destruct (lookup s h) as [[oid ob]|]; [apply h_fold_ext | apply ext_refl].
   - destruct (lookup s h) as [[oid ob]|]; [apply h_astype_ext | apply ext_refl].
   - destruct (lookup s h) as [[oid ob]|]; [apply h_pickle_ext | apply ext_refl].
+  - destruct (lookup s h) as [[oid ob]|]; [|apply ext_refl]. destruct (fpz && _); [apply ext_refl | apply h_pickle_ext].
   - destruct (lookup_all s hs); [apply h_concat_ext | apply ext_refl].
 Qed.
 
@@ -174,13 +175,13 @@ Proof. intros Hs Hl Hne. eapply handle_db_ext; eauto using step_ext. Qed.
 
 (* ... at any point of any history *)
 Theorem snapshots_independent ops o h oid ob :
-  ops_dom init ops -> let s := run init ops in
+  let s := run init ops in
   lookup s h = Some (oid, ob) -> Some oid <> target_of s o ->
   handle_db (fst (step s o)) h = handle_db s h.
 Proof.
-  intros Hd s Hl Hne. rewrite (snapshots_independent_step s o h oid ob); auto.
+  intros s Hl Hne. rewrite (snapshots_independent_step s o h oid ob); auto.
   - unfold handle_db. rewrite Hl. reflexivity.
-  - apply run_ok; [apply init_ok | exact Hd].
+  - apply run_ok. apply init_ok.
 Qed.
 
 (* C05 reads_do_not_change: every operation other than add_fingerprints / set_prop / update_props - lookups (also of absent
